@@ -221,7 +221,8 @@ def _block_type(a, b, ti):
     # replaced by a space where the new type is not code
     old = leaves_nomarks(C.tok)
     new = leaves_nomarks(doc_tokens(tr.doc))
-    code = bool(C.V.nodes[t.name].get("code"))
+    sp = C.V.nodes[t.name]
+    code = (sp.get("whitespace") or ("pre" if sp.get("code") else "normal")) == "pre"     # newlines survive in 'pre' types
     i = 0
     ok = True
     for x in old:
@@ -273,7 +274,7 @@ def obligations(tier, seed):
             for lo in range(0, size + 1, 3):
                 obs.append({"name": "%s/%s/%d" % (op, tag, lo), "fn": "ob_range", "P": dict(p, op=op, alo=lo, ahi=lo + 3), "timeout": T})
         obs.append({"name": "node/" + tag, "fn": "ob_node", "P": p, "timeout": T})
-    bt = [("list", 4), ("list", 9), ("list", 12)] if tier == "quick" else [("list", i) for i in range(12)] + [("basic", 1), ("title", 2)]
+    bt = [("list", 4), ("list", 9), ("list", 12), ("ws", 0)] if tier == "quick" else [("list", i) for i in range(12)] + [("basic", 1), ("title", 2)]
     for (sn, i) in bt:
         p = {"schema": sn, "doc": i}
         size = common.templates.doc(sn, i).content.size
